@@ -158,9 +158,45 @@ func c01Property(t *rapid.T) {
 	var primary []*heightRecord
 	groupTxs, lifecycle := 0, 0
 	var queue []*blockSpec
+	proofEp, proofPid, proofEpisodes := -1, "", 0
 	for bi := 0; bi < nBlocks; bi++ {
 		var b *blockSpec
-		if len(queue) > 0 {
+		if proofEp < 0 && len(queue) == 0 && bi == nBlocks-4 && rapid.IntRange(0, 2).Draw(t, "proofEpisode") == 0 {
+			proofEp = 0
+		}
+		if proofEp >= 0 && proofEp <= 3 {
+			// proof-dependency episode: the deciding vote of chainC's logout (it clears the chain's rules) at the end of a
+			// long block, an IBTP of chainC in the next block. Whether that IBTP's proof is judged against the state before
+			// or after the vote must not depend on how the two blocks are scheduled.
+			kc := sim.ChainAdmins["chainC"]
+			b = &blockSpec{}
+			switch proofEp {
+			case 0:
+				b.txs = append(b.txs, &txSpec{tx: w.BVM(kc, constant.AppchainMgrContractAddr, "LogoutAppchain", pb.String("chainC"), pb.String("r")), kind: "gov-lifecycle", desc: "episode: LogoutAppchain chainC"})
+			case 1:
+				for a := 0; a < 2; a++ {
+					b.txs = append(b.txs, &txSpec{tx: w.VoteTx(w.N.Admins[a], proofPid, true), kind: "gov-vote", desc: "episode: vote on chainC logout"})
+				}
+			case 2:
+				for k := 0; k < 40; k++ {
+					b.txs = append(b.txs, &txSpec{tx: w.Transfer(w.N.Admins[3], sim.KeyFor("sink"), "1"), kind: "transfer", desc: "episode: filler"})
+				}
+				b.txs = append(b.txs, &txSpec{tx: w.VoteTx(w.N.Admins[2], proofPid, true), kind: "gov-vote", desc: "episode: deciding vote on chainC logout"})
+				b.glue = true
+			default:
+				from, to := sim.FullID(w.BxhID, "chainC", "s1"), sim.FullID(w.BxhID, "chainB", "s1")
+				idx := uint64(1)
+				if ic := w.Interchain(from); ic != nil {
+					idx = ic.InterchainCounter[to] + 1
+				}
+				proof := []byte("1")
+				b.txs = append(b.txs, &txSpec{tx: w.IBTP(kc, &pb.IBTP{From: from, To: to, Index: idx, TimeoutHeight: 0, Proof: sim.ProofHash(proof), Type: pb.IBTP_INTERCHAIN}, proof), kind: "ibtp-req", desc: "episode: IBTP of chainC right after its logout was decided"})
+			}
+			w.TS += 10
+			b.ts = w.TS
+			proofEp++
+			proofEpisodes = 1
+		} else if len(queue) > 0 {
 			b, queue = queue[0], queue[1:]
 		} else if rapid.IntRange(0, 3).Draw(t, "episode") == 0 {
 			ep := g.genGroupEpisode()
@@ -174,6 +210,12 @@ func c01Property(t *rapid.T) {
 		}
 		rs := checkExecuted(w.N, h, b, f)
 		g.observe(b, rs)
+		if proofEp == 1 {
+			proofPid = sim.ProposalID(rs[0])
+			if !rs[0].IsSuccess() || proofPid == "" {
+				proofEp = 99 // chainC cannot be logged out in this history (already frozen / logged out): no episode
+			}
+		}
 		var txs []pb.Transaction
 		for i, s := range b.txs {
 			txs = append(txs, s.tx)
@@ -212,6 +254,13 @@ func c01Property(t *rapid.T) {
 			}
 			if rapid.IntRange(0, 5).Draw(t, "view") == 0 {
 				plan.viewBefore[bi] = true
+			}
+			if bi > 0 && blocks[bi-1].glue {
+				// the two blocks of an episode stay together (and a pipelined replica starts its burst at the first)
+				if plan.restartAt[bi] {
+					restarts--
+				}
+				plan.restartAt[bi], plan.viewBefore[bi] = false, false
 			}
 		}
 		ops = append(ops, fmt.Sprintf("replica %d: fresh=%v proof=%s gomaxprocs=%d cache=%d restartsBefore=%v", ri, plan.fresh, plan.proofType, plan.maxProcs, plan.cacheSize, keysOfInt(plan.restartAt)))
@@ -275,7 +324,7 @@ func c01Property(t *rapid.T) {
 				// executor at once, so that signature checks of later blocks overlap with the execution of earlier ones
 				burst := 1
 				if plan.pipelined {
-					for burst < 4 && bi+burst < len(blocks) && !plan.restartAt[bi+burst] && !plan.viewBefore[bi+burst] {
+					for (burst < 4 || blocks[bi+burst-1].glue) && bi+burst < len(blocks) && !plan.restartAt[bi+burst] && !plan.viewBefore[bi+burst] {
 						burst++
 					}
 				}
@@ -327,6 +376,9 @@ func c01Property(t *rapid.T) {
 	}
 	if pipelinedBursts > 0 {
 		classes = append(classes, "replica-pipelined-bursts")
+	}
+	if proofEpisodes > 0 && proofEp == 4 {
+		classes = append(classes, "proof-dependency-episode")
 	}
 	nt := ""
 	if (groupTxs >= 2 || lifecycle >= 2) && restarts > 0 {
